@@ -11,7 +11,9 @@ package main
 //   a fake server of the scheme's protocol (DNS over udp/tcp/tls/http/https/quic/h3) on loopback records the
 //   TLS SNI and the HTTP Host it sees.  The literal port 61234 in url/da stands for "the fake server's port".
 //   case:   <id> url=<hex> da=<hex> listen=<none|v4|v6|unix|priv4|priv6> san=<text|-> snivis=<0|1> loop=<0|1>
-//   result: new=ok net=<udp|tcp|unix> dial=<text|-> sni=<text|-> hs=<ok|fail|-> host=<text|-> x=<ok|fail>  |  new=err
+//   result: new=ok net=<udp|tcp|unix> dial=<text|-> sni=<text|-> hs=<ok|fail|-> host=<text|-> hv=<1|2|3|-> x=<ok|fail>  |  new=err
+//           host = r.Host of the first request the fake DoH server received (HTTP/1.1: the Host header; h2 / h3: the
+//           :authority pseudo header), hv = its protocol major; h1=1 in the case makes the https server offer http/1.1 only
 //
 // kind "tls": a REAL router started in-process (router.VerifC17Run) from a Config whose TLS options are the case's:
 //   role=up: listener tcp on an abstract unix socket, one upstream (tls/https/quic) towards a fake server that
@@ -350,6 +352,9 @@ type c17Seen struct {
 	// behaviour switches of the fake servers (kind sockets)
 	udpTC   bool // every UDP reply is truncated (TC=1, no answer): a udp upstream must retry over TCP
 	oneShot bool // a connection serves ONE query and is closed: the next exchange has to dial again
+	h1Only  bool // the https server offers http/1.1 only (no h2): the Host HEADER is observed instead of :authority
+	// round 4: the HTTP request the fake DoH server received first
+	httpMajor int // r.ProtoMajor (1, 2, 3)
 }
 
 func (s *c17Seen) noteSNI(n string) {
@@ -363,6 +368,14 @@ func (s *c17Seen) noteHost(h string) {
 	s.mu.Lock()
 	if !s.hostSet {
 		s.host, s.hostSet = h, true
+	}
+	s.mu.Unlock()
+}
+func (s *c17Seen) noteRequest(r *http.Request) {
+	s.mu.Lock()
+	if !s.hostSet {
+		s.host, s.hostSet = r.Host, true
+		s.httpMajor = r.ProtoMajor
 	}
 	s.mu.Unlock()
 }
@@ -437,7 +450,7 @@ func c17ServeUDP(pc net.PacketConn, seen *c17Seen) {
 type c17DoH struct{ seen *c17Seen }
 
 func (h c17DoH) ServeHTTP(w http.ResponseWriter, r *http.Request) {
-	h.seen.noteHost(r.Host)
+	h.seen.noteRequest(r)
 	var q []byte
 	if r.Method == http.MethodGet {
 		q, _ = base64.RawURLEncoding.DecodeString(r.URL.Query().Get("dns"))
@@ -545,7 +558,11 @@ func c17StartServer(sc, laddr string, cert *tls.Certificate, seen *c17Seen, clie
 			hs.SetKeepAlivesEnabled(false)
 		}
 		if sc == "https" {
-			hs.TLSConfig = c17ServerTLS(*cert, seen, []string{"h2", "http/1.1"}, clientCAs)
+			protos := []string{"h2", "http/1.1"}
+			if seen.h1Only {
+				protos = []string{"http/1.1"}
+			}
+			hs.TLSConfig = c17ServerTLS(*cert, seen, protos, clientCAs)
 			go hs.ServeTLS(l, "", "")
 		} else {
 			go hs.Serve(l)
@@ -648,7 +665,7 @@ func endpointCase(f map[string]string, url, da string) string {
 	}
 	sc := c17BaseScheme(url)
 	listen := f["listen"]
-	seen := &c17Seen{}
+	seen := &c17Seen{h1Only: f["h1"] == "1"}
 	var cert *tls.Certificate
 	usesTLS := sc == "tls" || sc == "https" || sc == "quic" || sc == "h3"
 	if usesTLS && listen != "none" {
@@ -812,10 +829,12 @@ func endpointCase(f map[string]string, url, da string) string {
 			sni = seen.sni
 		}
 	}
+	hv := "-"
 	if listen != "none" && (sc == "http" || sc == "https" || sc == "h3") && seen.hostSet {
 		host = unsubst(seen.host)
+		hv = strconv.Itoa(seen.httpMajor)
 	}
-	return fmt.Sprintf("new=ok net=%s dial=%s sni=%s hs=%s host=%s x=%s", netwOut, dialOut, sni, hs, host, x)
+	return fmt.Sprintf("new=ok net=%s dial=%s sni=%s hs=%s host=%s hv=%s x=%s", netwOut, dialOut, sni, hs, host, hv, x)
 }
 
 // ------------------------------------------------------------------ kind tls
